@@ -28,7 +28,7 @@ WATCHDOG_S = 900
 
 
 def gen(ch, tier):
-    kind = ch.choice('kind', ('enc0-128', 'enc0-256', 'foreign', 'enc0-256', 'two-bcb', 'report'))
+    kind = ch.choice('kind', ('enc0-128', 'enc0-256', 'foreign', 'enc0-256', 'two-bcb', 'report', 'encw-128', 'encw-256'))
     if kind == 'report':
         # the policy node itself originates a bundle: a status report about a bundle it received
         return dict(scenario='bpsec_bcb', kind='report-' + ch.choice('ralg', ('128', '256')), plen=ch.choice('plen', (1, 40, 300)), others=0,
@@ -44,7 +44,7 @@ def gen(ch, tier):
                 pri_crc=ch.choice('pc', (0, 0, 2, 1)), blk_crc=ch.choice('bc', (0, 0, 1, 2)), window=ch.pick('window', 1 << 16),
                 wsize=24 if tier == 'quick' else 96, accept=ch.coin('accept', 2, 3), dst_key=ch.choice('dstkey', ('right', 'right', 'right', 'wrong', 'missing')),
                 falg=ch.choice('falg', (1, 3)), scope=ch.choice('scope', ([[0, 1], [-1, 1]], [[0, 1], [-1, 1], [-2, 1]], [[-1, 1]])),
-                tgt_ext=(kind != 'foreign' and ch.coin('tgtext', 1, 3)), split_assoc=ch.coin('split', 1, 2), typed_ext=ch.coin('typed', 1, 2), svc_source=ch.coin('svcsrc', 1, 3), fixup=True)
+                cbits=ch.choice('cbits', (None, None, 128, 256)), tgt_ext=(kind != 'foreign' and ch.coin('tgtext', 1, 3)), split_assoc=ch.coin('split', 1, 2), typed_ext=ch.coin('typed', 1, 2), svc_source=ch.coin('svcsrc', 1, 3), fixup=True)
 
 
 def _kid(plan):
@@ -52,7 +52,23 @@ def _kid(plan):
         return 'enc128' if plan['falg'] == 1 else 'enc256'
     if plan['kind'].startswith('report-'):
         return 'enc' + plan['kind'][7:]
+    if plan['kind'].startswith('encw-'):
+        # wrapped-key mode (COSE_Encrypt with one AES-KW recipient): the policy names the key-encryption key
+        return 'kw' + plan['kind'][5:]
     return 'enc' + plan['kind'][5:]
+
+
+def _content(plan):
+    ''' Content-encryption algorithm and key of the wrapped-key mode (the key travels wrapped in the recipient). '''
+    bits = plan.get('cbits') or int(plan['kind'][5:])
+    return ('A%dGCM' % bits, bytes(range(0x90, 0x90 + bits // 8)).hex())
+
+
+def _op(plan, ivs):
+    op = dict(type='bcb', kid=_kid(plan), ivs=ivs)
+    if plan['kind'].startswith('encw-'):
+        (op['content_alg'], op['content_key']) = _content(plan)
+    return op
 
 
 def _iv(seqno):
@@ -69,9 +85,9 @@ def _policy(plan):
             ivs.append((b'XV' + _iv(C03.seq_code(ix))[2:]).hex())
     if plan.get('tgt_ext') and plan.get('split_assoc'):
         # two associations, the one for the extension block listed first: operations are not in ascending target order
-        return [dict(src='.*', dst='.*', targets=[10 if plan.get('typed_ext') else 192], ops=[dict(type='bcb', kid=_kid(plan), ivs=ivs[1::2])]),
-                dict(src='.*', dst='.*', targets=[1], ops=[dict(type='bcb', kid=_kid(plan), ivs=ivs[0::2])])]
-    return [dict(src='.*', dst='.*', targets=[1, 10 if plan.get('typed_ext') else 192] if plan.get('tgt_ext') else [1], ops=[dict(type='bcb', kid=_kid(plan), ivs=ivs)])]
+        return [dict(src='.*', dst='.*', targets=[10 if plan.get('typed_ext') else 192], ops=[_op(plan, ivs[1::2])]),
+                dict(src='.*', dst='.*', targets=[1], ops=[_op(plan, ivs[0::2])])]
+    return [dict(src='.*', dst='.*', targets=[1, 10 if plan.get('typed_ext') else 192] if plan.get('tgt_ext') else [1], ops=[_op(plan, ivs)])]
 
 
 def _dst_keys(plan):
@@ -175,6 +191,16 @@ def classify(orig, alt_bytes):
             iv2 = cbor2.loads(bpsec_cose.parse_asb(abcb['btsd'])['results'][0][0][1])[1].get(5)
             if iv1 != iv2:
                 cov.add('cov.iv')
+        except Exception:  # pylint: disable=broad-except
+            pass
+    if any(label.endswith('cose-tag') for label in labels):
+        # COSE_Encrypt: the fourth item is the recipient list; AES key wrap authenticates the wrapped content key
+        try:
+            abcb = sc.sec_blocks(alt, rfc9171.TYPE_BCB)[0]
+            rec1 = cbor2.loads(asb['results'][0][0][1])[3]
+            rec2 = cbor2.loads(bpsec_cose.parse_asb(abcb['btsd'])['results'][0][0][1])[3]
+            if len(rec1) == 1 and len(rec2) == 1 and rec1[0][:2] == rec2[0][:2] and rec1[0][2] != rec2[0][2] and isinstance(rec2[0][2], bytes):
+                cov.add('cov.wrapped-key')
         except Exception:  # pylint: disable=broad-except
             pass
     if cov:
@@ -357,8 +383,8 @@ def _drive(run, plan, har):
     if plan['kind'].startswith('report-'):
         return _drive_report(run, plan, har)
     stats = run.stats
-    cfg = bc.digest({key: plan[key] for key in ('kind', 'plen', 'others', 'pri_crc', 'blk_crc', 'dst_key', 'accept', 'falg', 'scope', 'tgt_ext', 'split_assoc', 'typed_ext', 'svc_source') if key in plan})
-    stats['kind.' + ('foreign' if plan['kind'] == 'foreign' else 'enc0')] = 1
+    cfg = bc.digest({key: plan[key] for key in ('kind', 'plen', 'others', 'pri_crc', 'blk_crc', 'dst_key', 'accept', 'falg', 'scope', 'tgt_ext', 'split_assoc', 'typed_ext', 'svc_source', 'cbits') if key in plan})
+    stats['kind.' + ('foreign' if plan['kind'] == 'foreign' else plan['kind'][:4])] = 1
     stats['accept.' + ('on' if plan['accept'] else 'off')] = 1
     if plan.get('tgt_ext'):
         stats['kind.two_targets'] = 1
@@ -408,7 +434,12 @@ def _drive(run, plan, har):
     tgt = [blk for blk in orig0['blocks'] if blk['num'] == asb['targets'][pix]][0]
     try:
         aad = bpsec_cose.external_aad(orig0, bcbs[0], tgt, scope, asb['source_raw'], addl)
-        got = bpsec_cose.dec0(sc.RAW_KEYS[_kid(plan).encode()], asb['results'][pix][0][1], aad, tgt['btsd'])
+        if plan['kind'].startswith('encw-'):
+            got = bpsec_cose.dec_wrapped(sc.RAW_KEYS[_kid(plan).encode()], asb['results'][pix][0][1], aad, tgt['btsd'])
+            if asb['results'][pix][0][0] != bpsec_cose.COSE_ENC:
+                got = None
+        else:
+            got = bpsec_cose.dec0(sc.RAW_KEYS[_kid(plan).encode()], asb['results'][pix][0][1], aad, tgt['btsd'])
     except Exception as err:  # pylint: disable=broad-except
         got = None
     if got != plain:
